@@ -80,7 +80,7 @@ func (r *Run) exhaustiveTypeSwitch(f *prog.FuncInfo, wrappers []*types.TypeName,
 
 func init() {
 	prop("C04",
-		"(a) every record read from the source produces exactly one placeholder on the output stream and one entry in the key-by fetcher, for every element of a read batch; (b) the output stream has one consumer and only the event loop produces on it, and key-by results are consumed only to fill placeholders; (c) every event kind is handled by each dispatching type switch; (d) operators receive events only through the per-operator batcher, whose single sender goroutine serialises timed-out and full batches; (e,f) the reordering fetcher reserves output positions atomically with taking a batch and the reorder buffer's counters are locked (C20.d, C20.e); (g) records are routed with the key space's range index; plus C20.a-c for the batcher itself.",
+		"(a) every record read from the source produces exactly one placeholder on the output stream and one entry in the key-by fetcher, for every element of a read batch; (b) the output stream has one consumer and only the event loop produces on it, and key-by results are consumed only to fill placeholders; (c) every event kind is handled by each dispatching type switch; (d) operators receive events only through the per-operator batcher, whose single sender goroutine serialises timed-out and full batches; (e,f) the reordering fetcher reserves output positions atomically with taking a batch and the reorder buffer's counters are locked (C20.d, C20.e); (g) records are routed with the key space's range index; (h) at the end of input nothing stays behind in a batcher: the key-by batcher is flushed before SourceComplete is queued, the operators' batchers after it was broadcast, for every operator; the runner's watermark accounts only for records it already routed (C11.c); plus C20.a-c for the batcher itself.",
 		"behaviour under back-pressure and timing; that the handler's KeyEventBatch returns one result list per input record (handler contract).")
 
 	register(&Obligation{ID: "C04.a", Props: []string{"C04"}, Template: "exactly-once",
